@@ -1,6 +1,9 @@
 CONSTANT GEN = 0
+CONSTANT NTR = 1
+CONSTANT DIRECT = 0
 INIT Init
 NEXT Next
+VIEW View
 INVARIANT WellFormed
 INVARIANT LEqRefl
 INVARIANT LEqSym
@@ -13,4 +16,6 @@ INVARIANT LTotAnti
 INVARIANT LTotTrans
 INVARIANT LTotAgrees
 INVARIANT LTotGrouped
+INVARIANT LTotRanked
+INVARIANT LTotGroupedR
 INVARIANT LNumTotal
